@@ -74,7 +74,8 @@ def scheduler_inputs(rng, n):
     gemm = (rng.choice([(2, 2, 2), (4, 2, 2), (2, 4, 2)]), gmats)
     gemm_unb = ((None, 2, 2), gmats)
     for _ in range(n):
-        fam = rng.choice(["ew1", "ew2", "matmul", "matmul", "bmatmul", "gemmbias", "dot", "conv", "bcast", "random"])
+        fam = rng.choice(["ew1", "ew2", "matmul", "matmul", "bmatmul", "gemmbias", "dot", "conv", "bcast", "memflex", "random"])
+        force_checks = None
         if fam == "ew1":
             k = rng.choice([2, 3])
             n0 = rng.choice([4, 8, 12, 16, 6, 3, 64, 2, 1])
@@ -122,6 +123,21 @@ def scheduler_inputs(rng, n):
             rec = {"bounds": [I, K], "pats": [{"A": [[1, 0], [0, 1]], "b": [0, 0]}, {"A": [[0, 1]], "b": [0]}, {"A": [[1, 0]], "b": [0]}]}
             t = ((rng.choice([2, 4]),), [[[0], [1]], [[1]], [[0]]]) if red else ((rng.choice([2, 4]),), [[[1], [0]], [[0]], [[1]]])
             sizes = [1, 1, 4]
+        elif fam == "memflex":
+            # memory flexibility needs ONE operand dimension that is spatially unrolled and not accessed fine-grained over time; here one
+            # row is coarse in time but not unrolled and the other row is unrolled but fine-grained once the scheduler has tiled it: a
+            # schedule that passes the check has to have both in the same row
+            w = rng.choice([1, 2, 4])
+            coarse = (8 // w) * rng.choice([1, 2])
+            outer, inner = rng.choice([2, 3]), rng.choice([8, 16])
+            rows = [[coarse, 0], [0, 1]]
+            if rng.random() < 0.5:
+                rows.reverse()
+            k = rng.choice([2, 3])
+            rec = {"bounds": [outer, inner], "pats": [{"A": [list(r) for r in rows], "b": [0, 0]} for _ in range(k)]}
+            t = ((4,), [[[0], [1]] if rows[1] == [0, 1] else [[1], [0]]] * k)
+            sizes = [w] * k
+            force_checks = rng.choice([["mem"], ["pos", "mem"]])
         elif fam == "conv":
             OX, FX, C = rng.choice([2, 4]), rng.choice([1, 3]), rng.choice([2, 4])
             Kk = rng.choice([2, 4])
@@ -153,7 +169,7 @@ def scheduler_inputs(rng, n):
             # constant offsets (shifted windows): operands with the same matrix still differ
             for p in rec["pats"]:
                 p["b"] = [rng.choice([0, 0, 1, 2]) for _ in p["b"]]
-        checks = rng.choice([[], ["pos"], ["mem"], ["pos", "mem"]])
+        checks = force_checks if force_checks is not None else rng.choice([[], ["pos"], ["mem"], ["pos", "mem"]])
         out.append((t, rec, sizes, checks))
     return out
 
